@@ -35,7 +35,9 @@ func (osFS) Remove(path string) error {
 	return robustio.RemoveAll(path)
 }
 func (osFS) RemoveDir(path string) error {
-	return robustio.RemoveAll(path)
+	// Only ever an empty directory: the caller saw it empty a moment
+	// ago, but an upload may have put a blob there since.
+	return os.Remove(path)
 }
 
 func (osFS) Rename(oldname, newname string) error {
